@@ -8,7 +8,7 @@ E2-style exhaustive history enumeration (no sampling), every case on a FRESH ses
           handler, RANDOMIZE+RND) built by a program that STOPs inside its frames, followed by each of 13
           reset operations (RUN, RUN n, CLEAR [,m] [,,s], NEW - from direct mode and from inside the
           frames -, adding / deleting a line, DELETE) and a fixed battery of observations.
-  chain   every ordered history of <=2 / <=3 variable operations out of 10, x 19 COMMON lists (all 16
+  chain   every ordered history of <=2 / <=3 variable operations out of 10, x 21 COMMON lists (incl. a scalar and an array of the same name in both orders; all 16
           subsets of {A!,B$,C%(),D$()} and three more) x CHAIN / CHAIN ,line / ,,ALL / MERGE /
           MERGE+DELETE / MERGE ALL x OPTION BASE 0/1 x normal / tight memory.
 Oracle: a dict model of what the builders assigned; fresh-session values for everything else.
@@ -28,7 +28,7 @@ LEVEL_TEXT = (
     'frames, error trap, active error handler, random sequence) - are built on a fresh interpreter, '
     'followed by each of 13 forms of RUN / CLEAR / NEW / line edit, and every component is then observed '
     'through BASIC. For CHAIN every ordered history of up to 3 (quick: 2) variable operations is combined '
-    'with 19 COMMON lists, 6 CHAIN forms, OPTION BASE 0/1 and normal / tight memory, and presence and '
+    'with 21 COMMON lists, 6 CHAIN forms, OPTION BASE 0/1 and normal / tight memory, and presence and '
     'exact value of every name of a fixed universe is compared with a dict model. Enumeration is '
     'exhaustive within these bounds; no state merging is needed at this depth.')
 LEVEL_NOTE = (
@@ -64,7 +64,7 @@ FRESH_DIV0 = None
 # model of the variable universe
 
 SCALARS = ['A!', 'I%', 'D#', 'B$', 'L$']
-ARRAYS = ['C%', 'D$', 'E!']
+ARRAYS = ['C%', 'D$', 'A!']
 
 # variable operations: id -> (statement, effect on model)
 VAROPS = {
@@ -80,7 +80,7 @@ VAROPS = {
     'aC': 'DIM C%(3):C%(1)=11:C%(3)=33',
     # D$(3) is a run-time empty string: it shares its address with the string stored just before it
     'aD': 'DIM D$(3):D$(1)="p":D$(2)="q"+"r":D$(3)=LEFT$(D$(2),0)',
-    'aE': 'DIM E!(1,2):E!(1,2)=2.5:E!(1,1)=7',
+    'aE': 'DIM A!(1,2):A!(1,2)=2.5:A!(1,1)=7',
     # a string that lives in the record buffer of an open random file (chain leg only)
     'sF': 'OPEN "R.DAT" AS 1 LEN=8:FIELD 1,8 AS B$:LSET B$="HELLO"',
 }
@@ -118,7 +118,7 @@ def _apply_varop(m, op, base):
         ar['D$'] = v[base:]
     elif op == 'aE':
         v = [[0.0, 0.0, 0.0], [0.0, 7.0, 2.5]]
-        ar['E!'] = [row[base:] for row in v[base:]]
+        ar['A!'] = [row[base:] for row in v[base:]]
 
 
 def _new_model():
@@ -314,7 +314,7 @@ def _observe_vars_(c, expect, cls, viol):
 
 
 def _observe_arrays_dim(c, expect, cls, viol):
-    dims = {'C%': 'C%(1)', 'D$': 'D$(1)', 'E!': 'E!(1,1)'}
+    dims = {'C%': 'C%(1)', 'D$': 'D$(1)', 'A!': 'A!(1,1)'}
     ok = True
     for name in ARRAYS:
         r = c.run('DIM ' + dims[name])
@@ -480,13 +480,16 @@ def _common_lists():
     for k in range(5):
         for sub in combinations(COMMON_UNIVERSE, k):
             out.append(list(sub))
-    out.append(['A!', 'I%', 'D#', 'B$', 'L$', 'C%()', 'D$()', 'E!()'])
+    out.append(['A!', 'I%', 'D#', 'B$', 'L$', 'C%()', 'D$()', 'A!()'])
     out.append(['L$'])
-    out.append(['D#', 'I%', 'E!()'])
+    out.append(['D#', 'I%', 'A!()'])
+    # a scalar and an array of the same name in one COMMON statement, in both orders
+    out.append(['A!', 'A!()'])
+    out.append(['A!()', 'A!'])
     return out
 
 
-COMMONS = _common_lists()      # 20
+COMMONS = _common_lists()      # 21
 # for the longest histories (thorough): none, each single name, all four, all eight
 REDUCED_COMMONS = [i for i, c in enumerate(COMMONS) if len(c) in (0, 1, 8) or c == COMMON_UNIVERSE]
 
